@@ -296,6 +296,16 @@ func (l *Lexer) NextToken() token.Token {
 		}
 
 	case rune(0):
+		// readChar reports the end of the input as a NUL character; a
+		// NUL inside the input is an illegal character, not the end.
+		if l.position < len(l.characters) {
+			tok.Type = token.ILLEGAL
+			tok.Literal = "illegal NUL character in input"
+			tok.Column = l.column
+			tok.Line = l.line
+			l.readChar()
+			return tok
+		}
 		tok.Literal = ""
 		tok.Type = token.EOF
 
